@@ -28,3 +28,17 @@ META["C13"] = {
     "note": "The race-detector-under-stress half of the property is not applicable to this technique (Go runtime and memory model are not encoded); lock discipline => race freedom is the trusted step. D1 candidates are replayed under go test -race, D2 candidates by a native stress run with yields injected at every lock operation.",
     "technique": "symbolic execution of go/ssa + SMT (z3), lock-discipline monitor, bounded schedule exploration with linearizability oracle, native replay",
 }
+
+META["C05"] = {
+    "text": "Differential symbolic execution of the real operator code (invokeAddOperator, invokeMultiplyOperator, invokeComparisonOperator, invokeUnaryExpr, toInt64/toFloat64/toString, int64Value with its cache) on literal operands with fully symbolic int64/float64 payloads against the Go expression the statement names, executed by the same engine; z3 decides kind and payload equality for all operand values per operator and class pair. Strings: bounded symbolic ASCII strings, numbers from a concrete pool.",
+    "design_ref": "DESIGN.md §5 C05",
+    "note": "No bound on numeric payloads. Trusted: go/ssa, symgo bit-vector/IEEE semantics (float->int per amd64), its reflect model (validated on 2269 repo scripts), z3.",
+    "technique": "symbolic execution of go/ssa + SMT (z3 bit-vectors and floats), differential against Go semantics, native replay",
+}
+
+META["C06"] = {
+    "text": "Algebraic laws of the real equal()/comparison/in/switch code over ordered pairs of 12 value classes with symbolic payloads: symmetry, != is the negation, in and switch agree with ==, same-type equality is Go's ==, int/float equality iff <= and >=, nil equals only nil, string/number equality iff the string is a decimal numeral for that number (pools), structural container equality; each decided by z3 over all payloads. Formatting-based comparisons are exercised on a concrete magnitude pool.",
+    "design_ref": "DESIGN.md §5 C06",
+    "note": "Parsing/formatting of symbolic strings and numbers is not encoded (paths ending there are counted as unsupported, never as passed).",
+    "technique": "symbolic execution of go/ssa + SMT (z3), algebraic-law harness, native replay",
+}
